@@ -8,6 +8,7 @@
    The theorems are about the model Mpir/Model/MpfStr.lean, which mirrors mpf/set_str.c and mpf/get_str.c and is
    compared bit for bit with the library on every run (ops mpf_set_str13, mpf_get_str13, mpf_str_roundtrip13). -/
 import MpirProofs.Lemmas.MpfStrDiv
+import MpirProofs.Lemmas.MpfStrGet
 namespace Mpir.MpfStr
 open Mpir Mpir.Mpf
 
@@ -57,7 +58,7 @@ theorem convert_err (prec : ℕ) (hp : 1 ≤ prec) (p : Parsed) (hb : 1 ≤ p.ba
   by_cases h0 : p.scale.natAbs = 0
   · rw [if_pos h0]
     have hs : p.scale = 0 := Int.natAbs_eq_zero.mp h0
-    obtain ⟨wf, R, hR, ap, _⟩ := convInt_spec prec p.neg p.mant hM
+    obtain ⟨wf, R, hR, ap, _, _⟩ := convInt_spec prec p.neg p.mant hM
     refine ⟨wf, ?_⟩
     rw [hR, hs, zpow_zero, mul_one]
     exact err_with_sign p.neg prec hMq (err_of_appr prec hp hMq ap (by have := B_pos; omega))
@@ -66,7 +67,7 @@ theorem convert_err (prec : ℕ) (hp : 1 ≤ prec) (p : Parsed) (hb : 1 ≤ p.ba
     have h4B : p.scale.natAbs + 2 < 4 * B := by rw [B_eq]; omega
     by_cases hneg : p.scale < 0
     · rw [if_pos hneg]
-      obtain ⟨wf, R, hR, lo, hi⟩ := convDiv_spec prec p.neg p.mant p.base p.scale.natAbs hM hb he1
+      obtain ⟨wf, R, hR, lo, hi, _⟩ := convDiv_spec prec p.neg p.mant p.base p.scale.natAbs hM hb he1
       refine ⟨wf, ?_⟩
       have hs : p.scale = -(p.scale.natAbs : ℤ) := by omega
       have hV : sgn p.neg * (p.mant : ℚ) * (p.base : ℚ) ^ p.scale =
@@ -76,7 +77,7 @@ theorem convert_err (prec : ℕ) (hp : 1 ≤ prec) (p : Parsed) (hb : 1 ≤ p.ba
       have hVpos : (0 : ℚ) < (p.mant : ℚ) / (p.base : ℚ) ^ p.scale.natAbs := div_pos hMq (pow_pos hbq _)
       exact err_with_sign p.neg prec hVpos (err_of_two_sided prec hp hVpos lo hi he)
     · rw [if_neg hneg]
-      obtain ⟨wf, R, hR, ap⟩ := convMul_spec prec p.neg p.mant p.base p.scale.natAbs hM hb he1
+      obtain ⟨wf, R, hR, ap, _⟩ := convMul_spec prec p.neg p.mant p.base p.scale.natAbs hM hb he1
       refine ⟨wf, ?_⟩
       have hs : p.scale = (p.scale.natAbs : ℤ) := by omega
       have hV : sgn p.neg * (p.mant : ℚ) * (p.base : ℚ) ^ p.scale =
@@ -92,6 +93,65 @@ example : convert 2 ⟨false, 10, [1], 0, -1⟩ =
     ⟨2, 3, 0, [0x9999999999999999, 0x9999999999999999, 0x1999999999999999]⟩ := by decide +kernel
 example : WF (convert 2 ⟨false, 10, [7], 0, 77⟩) ∧ (convert 2 ⟨false, 10, [7], 0, 77⟩).exp = 5 := by decide +kernel
 
+/-- **Exactness of mpf_set_str.**  If the integer mantissa, the power base^|exponent − fraction length| and
+    the value denoted each fit in p = 64·prec − 64 bits (are m·2^k with |m| < 2^p), the stored result equals the
+    value denoted: the mantissa cut, every truncated square inside mpn_pow_1_highpart, the product cut and the
+    final division drop nothing but zero limbs / leave no remainder. -/
+theorem convert_exact_if_fits (prec : ℕ) (hp : 1 ≤ prec) (p : Parsed) (hb : 1 ≤ p.base) (hM : p.mant ≠ 0)
+    (fM : Fits (p.mant : ℚ) (PREC_TO_BITS prec))
+    (fb : Fits (((p.base ^ p.scale.natAbs : ℕ) : ℚ)) (PREC_TO_BITS prec))
+    (fv : Fits p.value (PREC_TO_BITS prec)) :
+    toQ (convert prec p) = p.value := by
+  have hpb : PREC_TO_BITS prec = 64 * (prec - 1) := by unfold PREC_TO_BITS; omega
+  rw [hpb] at fM fb fv
+  have toN : ∀ N : ℕ, Fits (N : ℚ) (64 * (prec - 1)) → FitsN N (64 * (prec - 1)) := by
+    intro N h
+    apply fitsN_of_fits (Or.inl rfl) N 0
+    simpa using h
+  have fM' := toN _ fM
+  have fb' := toN _ fb
+  unfold Parsed.value at fv ⊢
+  unfold convert
+  rw [if_neg hM]
+  by_cases h0 : p.scale.natAbs = 0
+  · rw [if_pos h0]
+    have hs : p.scale = 0 := Int.natAbs_eq_zero.mp h0
+    obtain ⟨_, R, hR, _, _, ex⟩ := convInt_spec prec p.neg p.mant hM
+    rw [hR, ex hp fM', hs, zpow_zero, mul_one]
+  · rw [if_neg h0]
+    have he1 : 1 ≤ p.scale.natAbs := by omega
+    by_cases hneg : p.scale < 0
+    · rw [if_pos hneg]
+      obtain ⟨_, R, hR, _, _, ex⟩ := convDiv_spec prec p.neg p.mant p.base p.scale.natAbs hM hb he1
+      have hs : p.scale = -(p.scale.natAbs : ℤ) := by omega
+      have hV : sgn p.neg * (p.mant : ℚ) * (p.base : ℚ) ^ p.scale =
+          sgn p.neg * ((p.mant : ℚ) / (p.base : ℚ) ^ p.scale.natAbs) := by
+        rw [hs, zpow_neg, zpow_natCast, Int.natAbs_neg, Int.natAbs_natCast]; ring
+      rw [hV] at fv ⊢
+      rw [hR, ex hp fM' fb' (fits_sg (sgn_cases p.neg) fv)]
+    · rw [if_neg hneg]
+      obtain ⟨_, R, hR, _, ex⟩ := convMul_spec prec p.neg p.mant p.base p.scale.natAbs hM hb he1
+      have hs : p.scale = (p.scale.natAbs : ℤ) := by omega
+      have hV : sgn p.neg * (p.mant : ℚ) * (p.base : ℚ) ^ p.scale =
+          sgn p.neg * (((p.mant * p.base ^ p.scale.natAbs : ℕ) : ℚ)) := by
+        rw [hs, zpow_natCast, Int.natAbs_natCast]; push_cast; ring
+      rw [hV] at fv ⊢
+      have fv' : FitsN (p.mant * p.base ^ p.scale.natAbs) (64 * (prec - 1)) := by
+        apply fitsN_of_fits (sgn_cases p.neg) _ 0
+        simpa using fv
+      rw [hR, ex hp fM' fb' fv']; push_cast; ring
+
+-- non-vacuity: "5e-1" in base 10 is exactly 1/2 (through the division), "125e3" exactly 125000 (through the product)
+example : toQ (convert 2 ⟨false, 10, [5], 0, -1⟩) = 1 / 2 := by
+  have h := convert_exact_if_fits 2 (by norm_num) ⟨false, 10, [5], 0, -1⟩ (by decide) (by decide +kernel)
+    ⟨5, 0, by norm_num [Parsed.mant, Radix.ofDigits], by norm_num [PREC_TO_BITS]⟩
+    ⟨10, 0, by norm_num [Parsed.scale], by norm_num [PREC_TO_BITS]⟩
+    ⟨1, -1, by norm_num [Parsed.value, Parsed.mant, Parsed.scale, Radix.ofDigits, sgn], by norm_num [PREC_TO_BITS]⟩
+  rw [h]; norm_num [Parsed.value, Parsed.mant, Parsed.scale, Radix.ofDigits, sgn]
+example : convert 2 ⟨false, 10, [5], 0, -1⟩ = ⟨2, 3, 0, [0, 0, B / 2]⟩ := by decide +kernel
+example : convert 2 ⟨true, 10, [1, 2, 5], 0, 3⟩ = ⟨2, -1, 1, [125000]⟩ := by decide +kernel
+
+
 /-- mpf_set_str as a whole: a rejected string leaves the destination untouched and returns -1; an accepted one
     returns 0 and stores the conversion of what the string denotes, to which `convert_zero` / `convert_err` apply. -/
 theorem set_str_spec (prec : ℕ) (dst : F) (base : ℤ) (s : List ℕ) :
@@ -103,5 +163,38 @@ theorem set_str_spec (prec : ℕ) (dst : F) (base : ℤ) (s : List ℕ) :
   · intro p h; rw [h]
 
 example : set_str 2 ⟨2, 2, -3, [5, 7]⟩ 10 ("1e".toList.map Char.toNat) = (-1, ⟨2, 2, -3, [5, 7]⟩) := by decide +kernel
+
+/-! ## mpf_get_str: what the run-time predicate decides -/
+
+/-- The integer test `withinUnit` evaluated by the driver is the statement "the digits d₁…d_L with exponent x
+    denote a value within one unit of the n-th digit of num/den":  |0.d₁…d_L · b^x − num/den| ≤ b^(x−n). -/
+theorem withinUnit_iff (b : ℕ) (hb : 1 ≤ b) (ds : List ℕ) (x : ℤ) (n num den : ℕ) (hden : 0 < den)
+    (hL : ds.length ≤ n) :
+    withinUnit b ds x n num den = true ↔
+      |(Radix.ofDigits b ds : ℚ) * (b : ℚ) ^ (x - (ds.length : ℤ)) - (num : ℚ) / (den : ℚ)| ≤ (b : ℚ) ^ (x - (n : ℤ)) :=
+  withinUnit_iff_q b hb ds x n num den hden hL
+
+/-- `GetOk`, the predicate applied to every answer of mpf_get_str for a non-zero operand of magnitude num/den
+    (n = the digit count worked to: n_digits, or MPF_SIGNIFICANT_DIGITS when n_digits is 0 or larger than that),
+    says exactly: between 1 and n digits, each below the base, the first and the last one non-zero ("trailing
+    zeros are not returned"), and the value denoted is within one unit of the n-th digit. -/
+theorem getOk_iff (b : ℕ) (hb : 1 ≤ b) (ds : List ℕ) (x : ℤ) (n num den : ℕ) (hden : 0 < den) :
+    GetOk b ds x n num den = true ↔
+      (1 ≤ ds.length ∧ ds.length ≤ n ∧ (∀ d ∈ ds, d < b) ∧ ds.head? ≠ some 0 ∧ ds.getLast? ≠ some 0 ∧
+       |(Radix.ofDigits b ds : ℚ) * (b : ℚ) ^ (x - (ds.length : ℤ)) - (num : ℚ) / (den : ℚ)| ≤ (b : ℚ) ^ (x - (n : ℤ))) := by
+  unfold GetOk
+  simp only [Bool.and_eq_true, decide_eq_true_iff, List.all_eq_true]
+  constructor
+  · rintro ⟨⟨⟨⟨⟨h1, h2⟩, h3⟩, h4⟩, h5⟩, h6⟩
+    exact ⟨h1, h2, h3, h4, h5, (withinUnit_iff_q b hb ds x n num den hden h2).mp h6⟩
+  · rintro ⟨h1, h2, h3, h4, h5, h6⟩
+    exact ⟨⟨⟨⟨⟨h1, h2⟩, h3⟩, h4⟩, h5⟩, (withinUnit_iff_q b hb ds x n num den hden h2).mpr h6⟩
+
+-- non-vacuity: 3.1416 as "31416" with exponent 1 at n = 5 is accepted for 31416/10000 and for 314159/100000
+-- (error 0.1 unit), and rejected for 3.1427 (1.1 units) and when a leading zero digit is delivered
+example : GetOk 10 [3, 1, 4, 1, 6] 1 5 314159 100000 = true := by decide +kernel
+example : GetOk 10 [3, 1, 4, 1, 6] 1 5 31427 10000 = false := by decide +kernel
+example : GetOk 10 [0, 3, 1, 4, 2] 2 5 31416 10000 = false := by decide +kernel
+example : GetOk 10 [1] 3 4 99996 1000 = true := by decide +kernel        -- 99.996 to 4 digits: "1", exponent 3
 
 end Mpir.MpfStr
